@@ -56,7 +56,9 @@ class ProbeSource(workload.NativeRandomSource):
 
 
 def declared(desc):
-    return {p["name"]: (p.get("weight") if p.get("weight") is not None else 1) for p in desc["prods"]}
+    d = {p["name"]: (p.get("weight") if p.get("weight") is not None else 1) for p in desc["prods"]}
+    d.update({a["name"]: a["weight"] for a in desc["abstracts"] if a.get("weight") is not None})
+    return d
 
 
 def check_weights(desc, built, g, model, rec, nth, first, after_sibling=False):
@@ -67,6 +69,10 @@ def check_weights(desc, built, g, model, rec, nth, first, after_sibling=False):
         if not refmodel.is_abs(a):
             continue
         prods = model.productions(a)
+        if desc.get("rules_from_library"):
+            # classes with several abstract bases: which rule such a class belongs to is the library's decision (its
+            # first base); the weights are judged on the rules the grammar actually has
+            prods = list(g.alternatives.get(a, []))
         if not prods:
             continue
         rec.count("rules_checked")
@@ -157,14 +163,47 @@ def setup(rec):
     install_chooser_monitor(HOLDER)
 
 
+TWO_BASES = {  # a production that lists two abstract grammar types as direct bases, in a weighted hierarchy
+    "name": "w_two_bases",
+    "rules_from_library": True,
+    "abstracts": [{"name": "Root", "parent": None, "style": "abc"}, {"name": "Shape", "parent": "Root", "style": "decorator"}, {"name": "Colour", "parent": "Root", "style": "decorator"}],
+    "prods": [
+        {"name": "Square", "parent": "Shape", "fields": [], "weight": 3},
+        {"name": "Shared", "parent": "Shape", "also": ["Colour"], "fields": []},
+        {"name": "Red", "parent": "Colour", "fields": [], "weight": 1},
+        {"name": "Blue", "parent": "Colour", "fields": [["k", ["ann", ["int"], ["IntRange", 0, 2]]]], "weight": 2},
+    ],
+    "start": "Root",
+}
+
+
+UNLISTED_WEIGHT = {  # the only declared weight sits on a nested abstract type that is NOT listed among the supplied classes
+    "name": "w_unlisted_nested",
+    "abstracts": [{"name": "A", "parent": None, "style": "abc"}, {"name": "B", "parent": "A", "style": "decorator", "weight": 3}],
+    "prods": [
+        {"name": "C", "parent": "A", "fields": [["x", ["ann", ["int"], ["IntRange", 0, 2]]]]},
+        {"name": "D", "parent": "B", "fields": []},
+        {"name": "E", "parent": "B", "fields": [["y", ["bool"]]]},
+    ],
+    "considered": ["C", "D", "E"],
+    "start": "A",
+}
+
+
 def run_case(case, rec):
     HOLDER["rec"] = rec
     desc = grammars.gen_descriptor(case["seed"] * 7919 + case["i"], "weighted")
+    if case["i"] % 25 == 7:
+        desc = dict(TWO_BASES)
+        rec.count("hierarchies_with_a_two_base_production")
+    if case["i"] % 25 == 13:
+        desc = dict(UNLISTED_WEIGHT)
+        rec.count("hierarchies_whose_only_weight_is_on_an_unlisted_class")
     HOLDER["grammar"] = desc["name"]
     built = grammars.materialise(desc)
     try:
         model = refmodel.Model(built.classes, built.start)
-        if not any(p.get("weight") is not None for p in desc["prods"]):
+        if not any(p.get("weight") is not None for p in desc["prods"] + desc["abstracts"]):
             rec.count("hierarchies_without_any_weight_skipped")  # the statement is about classes carrying weights
             return
         first = None
